@@ -65,6 +65,12 @@ void harness(void) {
 #else
   g_dc.pairs = NULL;
 #endif
+  unsigned char *snap_data = it->data;
+#if defined(KIND_INDEF_BYTESTRING) || defined(KIND_INDEF_STRING)
+  bool chunks_null = CHUNKS(it)->chunks == NULL;
+#define CHUNKS_SNAP_NULL chunks_null
+#endif
+  (void)snap_data;
   size_t in_rc = it->refcount;
   size_t live0 = g_live, free0 = g_free_calls;
   cbor_item_t *ref = it;
@@ -74,6 +80,16 @@ void harness(void) {
     /* free(NULL) is a call but releases nothing: count blocks through g_live */
     __CPROVER_assert(g_free_calls == free0 + blocks, "C04,C13: each block of the node is handed to the configured free exactly once");
     __CPROVER_assert(live0 - g_live <= blocks, "C04: nothing but the node's own blocks is released");
+    if (n_children == 0 || (g_dc.watched != NULL && 0)) {
+      /* childless release (used by the opener callbacks through cbor_decref__childless): exact accounting */
+#if defined(KIND_INT) || defined(KIND_FLOAT_CTRL)
+      __CPROVER_assert(g_live == live0 - 1, "C04,C06: a leaf releases exactly its one block");
+#elif defined(KIND_INDEF_BYTESTRING) || defined(KIND_INDEF_STRING)
+      if (CHUNKS_SNAP_NULL) __CPROVER_assert(g_live == live0 - 2, "C04,C06: a childless chunked string releases node and bookkeeping block");
+#elif defined(KIND_ARRAY) || defined(KIND_MAP) || defined(KIND_DEF_BYTESTRING) || defined(KIND_DEF_STRING)
+      __CPROVER_assert(g_live == live0 - 1 - (snap_data != NULL ? 1 : 0), "C04,C06: a childless container releases node and storage");
+#endif
+    }
     if (g_k < n_children)
       __CPROVER_assert(g_d.hits == (g_dc.expect ? 1 : 0), "C04: every stored child is released exactly once (watched slot)");
     __CPROVER_assert(g_d.calls <= 2 * n_children, "C04: no release beyond the stored children");
